@@ -33,6 +33,15 @@ static void run_t(int nkeys, const std::vector<std::string>& ops)
     else if (t[0] == "cpyd") { std::unique_ptr<LRU> n(new LRU(c)); cp.swap(n); }                 // continue on the copy, source destroyed
     else if (t[0] == "cpya") { LRU tmp; tmp.insert(3, V(9)); tmp = c; LRU& self = tmp; tmp = self;
                                std::unique_ptr<LRU> n(new LRU); *n = tmp; cp.swap(n); }          // copy assignment incl. self-assignment
+    else if (t[0] == "asgo") {                                   // PRE-EXISTING STATE: copy assignment onto a cache that already holds OTHER entries
+      // (asgo:k=v,k=v,..[:tK] fills the target in that order, optionally touches key K); the history continues on the TARGET, the source is destroyed
+      std::unique_ptr<LRU> n(new LRU);
+      if (t.size() > 1 && !t[1].empty()) for (auto& kv : c11::split(t[1], ',')) { auto e = c11::split(kv, '='); n->insert((int) c11::num(e[0]), V((int) c11::num(e[1]))); }
+      if (t.size() > 2 && t[2].size() > 1) { try { n->touch((int) c11::num(t[2].substr(1))); } catch (Dune::RangeError&) {} }
+      *n = c;
+      if (n->size() != c.size()) ret = "!asgsize";
+      cp.swap(n);
+    }
     else if (t[0] == "ins1") {                                     // insert(key): documented as touch(key)
       try { V& r = c.insert((int) c11::num(t[1])); ret = "v" + std::to_string((int) r); }
       catch (Dune::RangeError&) { ret = "RE"; }
